@@ -41,7 +41,7 @@ for P in $(/verif/bin/mrocheck -list); do
     echo "--- $P fires:"; echo "$O" | grep '^VIOLATION\|^UNDECIDED' | grep -v '^VIOLATION property' | cut -c1-260 | head -4
   fi
 done
-rm -rf $SCR
+cd /verif; rm -rf $SCR
 echo "CHECKS_FIRED($NAME):${RES:- none}   (target property $PROP)"
 python3 - "$OUT" "$PROP" "$NAME" "$SUITE" "$WITH" "$WITHOUT" "$RES" "$DETAIL" <<'PY'
 import json,sys
